@@ -12,6 +12,7 @@ import Mingus.Model.Alias
 import Mingus.Model.Midi
 import Mingus.Model.MidiIn
 import Mingus.Model.Sequencer
+import Mingus.Model.Export
 /- Line-protocol dispatch: function name + decoded arguments → observation. -/
 namespace Mingus
 open Val
@@ -430,7 +431,49 @@ def dispatchSeq : String → List Val → Option Val
   | "seq.run", [list ops] => SeqDec.run ops
   | _, _ => none
 
+namespace ExpDec
+open Mingus.Export Mingus.Containers
+def entry : Val → Option LEntry
+  | .list [v, ns] => do let q ← ratOf v; let c ← SeqDec.ncOf ns; pure ⟨q, c⟩
+  | _ => Option.none
+def bar : Val → Option LBar
+  | .list [.str k, .int c, .int u, .list es] => (es.mapM entry).map fun l => ⟨k, c, u, l⟩
+  | _ => Option.none
+def bars : Val → Option (List LBar)
+  | .list [.str _, _, .list bs] => bs.mapM bar
+  | _ => Option.none
+def xinstr : Val → Option (Option XInstr)
+  | .nil => some Option.none
+  | .list [.str kind, .str name, .int nr] => some (some ⟨kind = lit "midi", name, nr⟩)
+  | _ => Option.none
+def xtrack : Val → Option XTrack
+  | .list [.str nm, i, .list bs] => do let ins ← xinstr i; let l ← bs.mapM bar; pure ⟨nm, ins, l⟩
+  | _ => Option.none
+partial def xmlVal : Xml → Val
+  | .elem t a x c => .list [.str t, .list (a.map fun p => .list [.str p.1, .str p.2]), .str x, .list (c.map xmlVal)]
+def optRat : Val → Option (Option Rat)
+  | .nil => some Option.none
+  | v => (ratOf v).map some
+end ExpDec
+
+def dispatchExport : String → List Val → Option Val
+  | "ly.note", [n, Val.bool po, Val.bool sa] => (MidiDec.note n).map fun x => toVal (Export.lyNote x po sa)
+  | "ly.nc", [ns, d, Val.bool sa] => do
+      let c ← SeqDec.ncOf ns
+      let dur ← ExpDec.optRat d
+      pure (toVal (Export.lyNC c dur sa))
+  | "ly.bar", [b, Val.bool sk, Val.bool st] => (ExpDec.bar b).map fun x => toVal (Export.lyBar x sk st)
+  | "ly.track", [t] => (ExpDec.bars t).map fun x => toVal (Export.lyTrack x)
+  | "ly.composition", [.list [.str title, .str author, .str sub, .list ts]] =>
+      (ts.mapM ExpDec.bars).map fun x => toVal (Export.lyComposition title author sub x)
+  | "xml.composition", [.list [.str title, .str author, .str _, .list ts]] =>
+      (ts.mapM ExpDec.xtrack).map fun x => match Export.xmlComposition title author x with
+        | .ok t => .list [ExpDec.xmlVal t, .list [.bool true, .bool true]]
+        | .error e => .err e
+  | _, _ => none
+
 def dispatch (fn : String) (args : List Val) : Option Val :=
+  (dispatchExport fn args).orElse fun _ =>
   (dispatchSeq fn args).orElse fun _ =>
   (dispatchMidiIn fn args).orElse fun _ =>
   (dispatchMidi fn args).orElse fun _ =>
